@@ -815,6 +815,153 @@ pub fn c16_bytes_case(seed: u64) -> Outcome {
     out
 }
 
+/// "malformed or truncated frames end that connection with an error": `nvalid` well-formed frames,
+/// then one frame that certainly cannot be decoded (or is cut short by end-of-stream). The endpoint
+/// must report a read error - not a clean end of stream, not silence.
+/// target: 0 server `requests()`, 1 server behind the request limiter *at its limit*, 2 server behind
+/// the limiter below its limit, 3 the channel's own Stream (raw), 4 client dispatch.
+pub fn c16_malformed_case(kind: u8, json: bool, target: u8, nvalid: usize) -> Outcome {
+    use tarpc::server::{BaseChannel, Channel};
+    let mut out = Outcome::default();
+    let kname = ["undecodable-payload", "truncated-header", "truncated-body"][kind as usize % 3];
+    let tname = ["server.requests", "server.limiter-at-limit", "server.limiter-below-limit", "server.raw-stream", "client"][target as usize % 5];
+    out.desc = json!({"family": "S-codec", "case": "malformed-frame", "kind": kname, "codec": if json { "json" } else { "bincode" }, "target": tname, "valid_frames_before": nvalid});
+    let to_server = target != 4;
+    // well-formed prefix: requests with fresh ids and far deadlines / responses
+    let mut bytes: Vec<u8> = vec![];
+    {
+        use tokio_serde::Serializer;
+        for k in 0..nvalid {
+            let payload: Vec<u8> = if to_server {
+                let mut ctx = context::current();
+                ctx.deadline = Instant::now() + Duration::from_secs(100_000);
+                let cm = ClientMessage::Request(tarpc::Request { context: ctx, id: 100 + k as u64, message: format!("v{k}") });
+                if json {
+                    serde_json::to_vec(&cm).unwrap()
+                } else {
+                    let mut codec = tokio_serde::formats::Bincode::<ClientMessage<String>, ClientMessage<String>>::default();
+                    Pin::new(&mut codec).serialize(&cm).unwrap().to_vec()
+                }
+            } else {
+                let rs = Response { request_id: 5000 + k as u64, message: Ok::<String, ServerError>(format!("v{k}")) };
+                if json {
+                    serde_json::to_vec(&rs).unwrap()
+                } else {
+                    let mut codec = tokio_serde::formats::Bincode::<Response<String>, Response<String>>::default();
+                    Pin::new(&mut codec).serialize(&rs).unwrap().to_vec()
+                }
+            };
+            bytes.extend((payload.len() as u32).to_be_bytes());
+            bytes.extend(payload);
+        }
+    }
+    match kind % 3 {
+        0 => {
+            // a complete frame whose payload is no message in either codec
+            let payload: &[u8] = if json { b"{\"Request\": 12" } else { &[0xFF, 0xFF, 0xFF, 0xFF, 0xFF, 0xFF, 0xFF, 0xFF, 0xFF] };
+            bytes.extend((payload.len() as u32).to_be_bytes());
+            bytes.extend(payload);
+        }
+        1 => bytes.extend([0u8, 0]), // half a length header, then end-of-stream
+        _ => {
+            bytes.extend(40u32.to_be_bytes());
+            bytes.extend([b'{'; 7]); // 7 of 40 announced bytes, then end-of-stream
+        }
+    }
+    let limit = match target {
+        1 => Some(nvalid),
+        2 => Some(nvalid + 2),
+        _ => None,
+    };
+    #[derive(Debug)]
+    enum End {
+        ReadError,
+        OtherError(String),
+        Clean,
+        Silent,
+    }
+    let res = catch_unwind(AssertUnwindSafe(|| {
+        let rt = tokio::runtime::Builder::new_current_thread().enable_time().start_paused(true).build().unwrap();
+        rt.block_on(async {
+            let (mut a, b) = frag_pipe(nvalid as u64 * 31 + kind as u64, 4096, 0);
+            let _ = a.write_all(&bytes).await;
+            let _ = a.shutdown().await;
+            macro_rules! drive {
+                ($stream:expr) => {{
+                    let mut st = Box::pin($stream);
+                    let mut held = vec![];
+                    let mut yielded = 0usize;
+                    let end = loop {
+                        match tokio::time::timeout(Duration::from_secs(60), st.next()).await {
+                            Err(_) => break End::Silent,
+                            Ok(None) => break End::Clean,
+                            Ok(Some(Ok(x))) => {
+                                yielded += 1;
+                                held.push(x); // kept alive: the requests stay in flight
+                                if yielded > nvalid + 4 {
+                                    break End::OtherError("more requests yielded than were sent".into());
+                                }
+                            }
+                            Ok(Some(Err(e))) => break if matches!(e, tarpc::ChannelError::Read(_)) { End::ReadError } else { End::OtherError(format!("{e:?}")) },
+                        }
+                    };
+                    (end, yielded)
+                }};
+            }
+            macro_rules! on_transport {
+                ($t:expr) => {{
+                    let ch = BaseChannel::with_defaults($t);
+                    match (target, limit) {
+                        (3, _) => drive!(ch),
+                        (_, Some(l)) => drive!(ch.max_concurrent_requests(l).requests()),
+                        _ => drive!(ch.requests()),
+                    }
+                }};
+            }
+            if to_server {
+                if json {
+                    on_transport!(tarpc::serde_transport::new(Framed::new(b, LengthDelimitedCodec::new()), tokio_serde::formats::Json::<ClientMessage<String>, Response<String>>::default()))
+                } else {
+                    on_transport!(tarpc::serde_transport::new(Framed::new(b, LengthDelimitedCodec::new()), tokio_serde::formats::Bincode::<ClientMessage<String>, Response<String>>::default()))
+                }
+            } else {
+                macro_rules! client_on {
+                    ($t:expr) => {{
+                        let nc = tarpc::client::new::<String, String, _>(tarpc::client::Config::default(), $t);
+                        let _client = nc.client; // kept alive: the dispatch may only end because of the read error
+                        match tokio::time::timeout(Duration::from_secs(60), nc.dispatch).await {
+                            Err(_) => (End::Silent, 0usize),
+                            Ok(Ok(())) => (End::Clean, 0),
+                            Ok(Err(e)) => (if matches!(e, tarpc::ChannelError::Read(_)) { End::ReadError } else { End::OtherError(format!("{e:?}")) }, 0),
+                        }
+                    }};
+                }
+                if json {
+                    client_on!(tarpc::serde_transport::new(Framed::new(b, LengthDelimitedCodec::new()), tokio_serde::formats::Json::<Response<String>, ClientMessage<String>>::default()))
+                } else {
+                    client_on!(tarpc::serde_transport::new(Framed::new(b, LengthDelimitedCodec::new()), tokio_serde::formats::Bincode::<Response<String>, ClientMessage<String>>::default()))
+                }
+            }
+        })
+    }));
+    match res {
+        Err(p) => out.viol("C16", "panic", format!("{tname} panicked on a {kname} frame: {}", panic_msg(&p))),
+        Ok((End::ReadError, y)) => {
+            if to_server && y != nvalid {
+                out.viol("C16", "well-formed-prefix-not-served", format!("{tname}: {nvalid} well-formed requests preceded the {kname} frame, {y} were handed to the application"));
+            }
+        }
+        Ok((End::Clean, _)) => out.viol("C16", "malformed-frame-clean-end", format!("{tname} ({}): a {kname} frame after {nvalid} well-formed ones ended the connection as a clean end of stream, not with an error", if json { "JSON" } else { "bincode" })),
+        Ok((End::Silent, _)) => out.viol("C16", "malformed-frame-ignored", format!("{tname} ({}): 60 s after a {kname} frame the connection has neither failed nor ended", if json { "JSON" } else { "bincode" })),
+        Ok((End::OtherError(e), _)) => out.viol("C16", "malformed-frame-wrong-error", format!("{tname}: a {kname} frame produced {e}, expected a read error")),
+    }
+    out.cell(format!("C16.malformed.{kname}.{tname}"));
+    out.sig = 0xC16_3000 + ((kind as u64) << 8) + ((target as u64) << 4) + ((json as u64) << 3) + nvalid as u64;
+    out.nontrivial("C16");
+    out.trace = vec![format!("{nvalid} valid frames then a {kname} frame to {tname}")];
+    out
+}
+
 /// wire-level boundary deadlines (durations no Instant can hold) sent to a real server over JSON / bincode,
 /// followed by a well-formed probe that must still be served
 pub fn c16_wire_deadline_case(k: usize, json: bool) -> Outcome {
